@@ -89,7 +89,13 @@ func (c *FnVC) instr(in ssa.Instruction) {
 	case *ssa.Go:
 		c.havocs = append(c.havocs, "go statement skipped "+c.srcAt(x.Pos()))
 	case *ssa.Send:
-		c.havocs = append(c.havocs, "channel send skipped "+c.srcAt(x.Pos()))
+		// Sequential reading of a producer: a send hands the value to the consumer and has no
+		// effect on this goroutine's heap (what other goroutines do meanwhile is outside the
+		// model - listed as an assumption). Contracts can constrain what is sent with
+		// `at call send assert E` (arg0 the channel, arg1 the value).
+		c.havocs = append(c.havocs, "channel send modelled as an event without heap effect "+c.srcAt(x.Pos()))
+		c.callN["send"]++
+		c.atAssertsIn(x.Block(), "send", fmt.Sprintf("send#%d", c.callN["send"]), []string{c.v(x.Chan), c.v(x.X)}, []types.Type{x.Chan.Type(), x.X.Type()})
 	case *ssa.Select:
 		c.havocVal(x, "select "+c.srcAt(x.Pos()))
 		c.havocAll("select")
